@@ -89,6 +89,7 @@ package geom
 //@   ensures (g.gtype == 1 || g.gtype == 4) ==> result == 0
 //@   ensures (g.gtype == 2 || g.gtype == 5) ==> result == 1
 //@   ensures (g.gtype == 3 || g.gtype == 6) ==> result == 2
+//@   ensures 0 <= result && result <= 2
 //@   defines result == ufn(gdim, int, g)
 //@ prop C02
 //@ func Crosses
